@@ -227,6 +227,14 @@ def run(repo, rep):
               'one receive and one yield per iteration; stops iff not pending (%d paths)' % n, '; '.join(sorted(set(probs))))
 
     # ---------------------------------------------------------------- R9: a cancel is not sent for a query that is over
+    rep.rule('C16.R10', 'every response the provider queues reaches the wire: the upper-layer provider overwrites no request primitive it '
+             'has taken off the outgoing queue and parked (same analysis as C05.G10) -- the C-FIND provider queues all its responses at '
+             'once', 1)
+    from ..fsm_model import FsmModel as _FM
+    from ..provider_model import ProviderModel as _PM, parked_primitive_problems as _ppp
+    _p10, _n10 = _ppp(repo, _PM(repo, _FM(repo)))
+    rep.check(not _p10, 'C16.R10', 'dulprovider:DULServiceProvider:parked-primitives', repo.module('dulprovider').relpath,
+              '%d store(s) of a queued primitive into an attribute, each into an empty one' % _n10, '; '.join(_p10))
     rep.rule('C16.R9', 'when the user stops iterating, the query is cancelled / abandoned only if its final response has not been '
              'received: every cancel sent from a GeneratorExit path is under a test that the status received last is pending (a flag '
              'set after the yield describes the response before the last)', 1)
